@@ -21,6 +21,9 @@ theorem construct_ok (a : Args) (r : Rule) (h : construct a = .ok r) :
             byweekday := byweekdayOf a, bynweekday := bynweekdayOf a,
             byhour := bh, byminute := bm, bysecond := bs, timeset := ts } := by
   unfold construct at h
+  split at h
+  · cases h
+  unfold constructBody at h
   cases h1 : normBysetpos a with
   | error e => rw [h1] at h; cases h
   | ok sp =>
@@ -132,7 +135,9 @@ theorem construct_bysetpos_ValueError (a : Args) (l : List Int) (p : Int) (hl : 
       simp at this
       omega
     rw [this]; rfl
-  unfold construct; rw [this]; rfl
+  unfold construct; split
+  · rfl
+  · unfold constructBody; rw [this]; rfl
 
 /-- `__construct_byset` raises exactly when no member is reachable -/
 theorem constructByset_error (interval start base : Int) (l : List Int)
@@ -155,7 +160,9 @@ theorem construct_byhour_unreachable (a : Args) (l : List Int) (hf : a.freq = 4)
   have : normUnit a.freq 4 a.interval a.dtstart.hh a.byhour 24 = .error .ValueError := by
     unfold normUnit; rw [hl, hf]; simp only [beq_self_eq_true, ↓reduceIte]
     rw [constructByset_error _ _ _ _ h]
-  unfold construct; rw [hsp, this]; rfl
+  unfold construct; split
+  · rfl
+  · unfold constructBody; rw [hsp, this]; rfl
 
 theorem normBysetpos_ok (a : Args) (sp : Option (List Int)) (h : normBysetpos a = .ok sp) :
     sp = a.bysetpos ∧ ∀ q ∈ a.bysetpos.getD [], q ≠ 0 := by
@@ -174,6 +181,17 @@ theorem normBysetpos_ok (a : Args) (sp : Option (List Int)) (h : normBysetpos a 
       have := List.all_eq_true.mp hv q hq
       intro h0; subst h0; simp at this
     · cases h
+
+/-- **INTERVAL must be positive**: the constructor accepts only `interval ≥ 1` … -/
+theorem construct_interval_pos (a : Args) (r : Rule) (h : construct a = .ok r) : 1 ≤ a.interval := by
+  unfold construct at h
+  split at h
+  · cases h
+  · omega
+
+/-- … and raises ValueError otherwise, whatever the other arguments are -/
+theorem construct_interval_ValueError (a : Args) (h : a.interval < 1) : construct a = .error .ValueError := by
+  unfold construct; rw [if_pos h]
 
 /-- the constructor keeps BYSETPOS as given, and accepts it only without a zero -/
 theorem construct_bysetpos (a : Args) (r : Rule) (h : construct a = .ok r) :
